@@ -206,7 +206,10 @@ impl Scenario for Bytes {
         let stratum = ((focus / 256 % 3) as u8, ((focus % 256) / 16) as u8);
         let style = STYLES[((run / 4) % STYLES.len() as u64) as usize];
         let max_actions = if tier == Tier::Quick { 80 } else { 200 };
-        let p = TypistParams { style, actions: marathon(run, rng.range(10, max_actions) as usize), stratum };
+        // endurance stratum: one session in 4096 is a day at the office - far more than 65,536
+        // separate key presses on one decoder
+        let actions = if is_endurance(run) { rng.range(400_000, 450_000) as usize } else { marathon(run, rng.range(10, max_actions) as usize) };
+        let p = TypistParams { style, actions, stratum };
         let mut ops = type_session(rng, &cfg, &p);
         // swarm: a random non-empty subset of fault kinds is enabled in this run
         let mut mask = rng.below(256) as u32;
